@@ -1821,7 +1821,9 @@ impl<'a> Gen<'a> {
         let m = self.fresh("m");
         let is_set = self.t.chance(90);
         let (ctor, init, add) = if is_set { ("Set", "[1, 2, 3, 4]", "add") } else { ("Map", "[[1, 'a'], [2, 'b'], [3, 'c'], [4, 'd']]", "set") };
-        out.push_str(&format!("const {m} = new {ctor}({init});\n"));
+        // `{m}n` bounds how often a mutation inside an iteration can fire: re-adding the key that triggers
+        // it would otherwise make the iteration endless (as the specification requires)
+        out.push_str(&format!("const {m} = new {ctor}({init}); let {m}n = 0;\n"));
         let mut live: Vec<String> = vec![];
         let steps = 2 + self.t.below(6);
         for i in 0..steps {
@@ -1844,9 +1846,9 @@ impl<'a> Gen<'a> {
                     live.push(it);
                 }
                 1 => out.push_str(&format!("for (const e of {m}) {{ print('abandon', show(e)); break; }}\n")),
-                2 => out.push_str(&format!("{m}.forEach(function (v, key) {{ print('each', show(key)); if (key === {k}) {{ {op} }} }});\n")),
-                3 => out.push_str(&format!("for (const e of {m}.keys()) {{ print('of', show(e)); if (e === {k2}) {{ {op} }} }}\n")),
-                4 => out.push_str(&format!("{m}.forEach(function (v, key) {{ if (key === {k}) {{ for (const q of {m}) {{ if (q !== undefined) break; }} {op} }} }});\n")),
+                2 => out.push_str(&format!("{m}.forEach(function (v, key) {{ print('each', show(key)); if (key === {k} && {m}n++ < 2) {{ {op} }} }});\n")),
+                3 => out.push_str(&format!("for (const e of {m}.keys()) {{ print('of', show(e)); if (e === {k2} && {m}n++ < 2) {{ {op} }} }}\n")),
+                4 => out.push_str(&format!("{m}.forEach(function (v, key) {{ if (key === {k} && {m}n++ < 2) {{ for (const q of {m}) {{ if (q !== undefined) break; }} {op} }} }});\n")),
                 5 => {
                     if let Some(it) = live.last().cloned() {
                         out.push_str(&format!("print(show({it}.next()));\n"));
